@@ -85,7 +85,6 @@ func main() {
 			}
 			p.vmTable()
 			for _, id := range sortedKeys(props) {
-				c := newCtx(p, id, *tier)
 				func() {
 					defer func() {
 						if r := recover(); r != nil {
@@ -93,9 +92,7 @@ func main() {
 							code = 2
 						}
 					}()
-					for _, r := range props[id].Rules {
-						r(c)
-					}
+					c := runRules(p, id, *tier, props[id].Rules)
 					runControls(c)
 					if rc := finishNoEvidence(c, *verif); rc > code {
 						code = rc
@@ -125,10 +122,7 @@ func main() {
 			return
 		}
 		p.vmTable() // names the VM handlers by opcode before any key is built
-		c := newCtx(p, *prop, *tier)
-		for _, r := range pi.Rules {
-			r(c)
-		}
+		c := runRules(p, *prop, *tier, pi.Rules)
 		runControls(c)
 		var extra map[string]interface{}
 		if *tier == "thorough" && !*noEvidence {
@@ -190,4 +184,73 @@ func finishNoEvidence(c *Ctx, verifDir string) int {
 		return 2
 	}
 	return 0
+}
+
+// runRules runs a property's rules. When the tree declares helper functions the baseline does not know
+// and the source inliner could not put back (normalize.go), an obligation that is not discharged is
+// decided a second time under the virtual view (ssax.go, allInstrs: the helpers' bodies are read as part
+// of the baseline functions that call them); it is reported only if it fails under both readings of the
+// same program. On a tree without such helpers (today's) there is one run.
+func runRules(p *Prog, id, tier string, rules []func(*Ctx)) *Ctx {
+	virtualView = false
+	c1 := newCtx(p, id, tier)
+	for _, r := range rules {
+		r(c1)
+	}
+	if !anyNewHelpers {
+		return c1
+	}
+	open := false
+	for _, o := range c1.Obls {
+		if o.Status != "discharged" {
+			open = true
+		}
+	}
+	for _, st := range c1.Stats {
+		if st.Instances < st.Floor {
+			open = true
+		}
+	}
+	if !open {
+		return c1
+	}
+	c2 := newCtx(p, id, tier)
+	func() {
+		defer func() {
+			virtualView = false
+			if r := recover(); r != nil {
+				c2 = nil
+			}
+		}()
+		virtualView = true
+		for _, r := range rules {
+			r(c2)
+		}
+	}()
+	if c2 == nil {
+		return c1
+	}
+	good := map[string]Obl{}
+	bad2 := map[string]bool{}
+	for _, o := range c2.Obls {
+		if o.Status == "discharged" {
+			good[o.Key] = o
+		} else {
+			bad2[o.Key] = true
+		}
+	}
+	for i, o := range c1.Obls {
+		if o.Status != "discharged" {
+			if g, ok := good[o.Key]; ok && !bad2[o.Key] {
+				g.Detail += " (read with the bodies of new helper functions in place)"
+				c1.Obls[i] = g
+			}
+		}
+	}
+	for rule, st2 := range c2.Stats {
+		if st1 := c1.Stats[rule]; st1 != nil && st2.Instances > st1.Instances {
+			st1.Instances = st2.Instances
+		}
+	}
+	return c1
 }
